@@ -80,7 +80,7 @@ func (x *Exec) isVisible(f *Frame, instr ssa.Instruction) bool {
 				}
 				return true
 			}
-			if fn.Pkg == x.P.Target && (fn.Name() == "vYield" || fn.Name() == "vWaitOthers" || fn.Name() == "vSettle") {
+			if fn.Pkg == x.P.Target && (fn.Name() == "vYield" || fn.Name() == "vStep" || fn.Name() == "vWaitOthers" || fn.Name() == "vSettle") {
 				return true
 			}
 		}
